@@ -204,7 +204,41 @@ theorem simE_step {fns P n} (hE : SimE fns P n) (hA : SimArgs fns P n) (hB : Sim
       obtain ⟨t1, ⟨env1, a⟩, t2, hel, ⟨t3, ⟨env2, b⟩, t4, her, h4, rfl⟩, rfl⟩ := h
       obtain ⟨σ1, hx1, hv1, ha1, hf1⟩ := hE.mat h1 ha hel
       obtain ⟨σ2, hx2, hv2, ha2, hf2⟩ := hE.mat h2 ha1 her
-      cases hb : binopEv op a b with
+      cases hb : binop op a b with
+      | none => simp [hb, R.stuck] at h4
+      | some u =>
+        simp [hb, pure_eq, R.ok] at h4
+        obtain ⟨rfl, rfl, rfl⟩ := h4
+        refine ⟨σ2, t1 ++ t3, [], ?_, ?_, by simp, ha2, hf1.trans hf2 (by omega)⟩
+        · have := ExecC.append hx1 hx2
+          simpa [List.append_assoc] using this
+        · have hl' : σ2 (atvVar vl c1) = a := by
+            rw [hk1, hf2 k1 hk1', ← hk1, hv1]
+          exact .pure (by simp [evalValue, hl', hv2, hb])
+    · intro t w h
+      simp only [evalExpr, bind_eq, bind_ret_iff] at h
+      rcases h with h | ⟨t1, ⟨env1, a⟩, t2, hel, h2', rfl⟩
+      · have := hE.ret h1 ha h
+        simpa [List.append_assoc] using ExecC.append_ret _ this
+      · obtain ⟨σ1, hx1, hv1, ha1, hf1⟩ := hE.mat h1 ha hel
+        rcases h2' with h | ⟨t3, ⟨env2, b⟩, t4, her, h4, rfl⟩
+        · have := hE.ret h2 ha1 h
+          have := ExecC.append hx1 (ExecC.append_ret (atvCode vr c2) this)
+          simpa [List.append_assoc] using this
+        · cases hb : binop op a b <;> simp [hb, R.stuck, pure_eq, R.ok] at h4
+  | eqH ne l r =>
+    -- `==` / `!=` on a host type: operands as for `bin`; the lazy value is the call of the type's equality
+    simp [lowerE, Option.bind_eq_some_iff] at hl
+    obtain ⟨cl, vl, c1, h1, cr, vr, c2, h2, rfl, rfl, rfl⟩ := hl
+    have ⟨m1, b1⟩ := lowerE_mono l c cl vl c1 h1
+    have ⟨a1, k1, hk1, hk1'⟩ := atv_spec vl c1 b1
+    constructor
+    · intro t env' w h
+      simp only [evalExpr, bind_eq, bind_ok_iff] at h
+      obtain ⟨t1, ⟨env1, a⟩, t2, hel, ⟨t3, ⟨env2, b⟩, t4, her, h4, rfl⟩, rfl⟩ := h
+      obtain ⟨σ1, hx1, hv1, ha1, hf1⟩ := hE.mat h1 ha hel
+      obtain ⟨σ2, hx2, hv2, ha2, hf2⟩ := hE.mat h2 ha1 her
+      cases hb : hostEq ne a b with
       | none => simp [hb, R.stuck] at h4
       | some p =>
         obtain ⟨te, u⟩ := p
@@ -226,7 +260,7 @@ theorem simE_step {fns P n} (hE : SimE fns P n) (hA : SimArgs fns P n) (hB : Sim
         · have := hE.ret h2 ha1 h
           have := ExecC.append hx1 (ExecC.append_ret (atvCode vr c2) this)
           simpa [List.append_assoc] using this
-        · cases hb : binopEv op a b <;> simp [hb, R.stuck, pure_eq, R.ok, bind_eq, R.bind, R.emits] at h4
+        · cases hb : hostEq ne a b <;> simp [hb, R.stuck, pure_eq, R.ok, bind_eq, R.bind, R.emits] at h4
   | and l r =>
     simp [lowerE, Option.bind_eq_some_iff] at hl
     obtain ⟨cl, vl, c1, h1, cr, vr, c2, h2, rfl, rfl, rfl⟩ := hl
@@ -488,7 +522,7 @@ theorem simE_step {fns P n} (hE : SimE fns P n) (hA : SimArgs fns P n) (hB : Sim
                     .assign (.x x) (.move (.t (atvNext vr c1)))] []
                   (.normal ((σ1.set (.t (atvNext vr c1)) v).set (.x x) v)) := by
                 have s1 : ExecS P σ1 (.assign (.t (atvNext vr c1)) (.binop (.t c) op (atvVar vr c1))) []
-                    (.normal (σ1.set (.t (atvNext vr c1)) v)) := .assign ((EvalV.pure (by simp [evalValue, hc, hv1, binopEv_of_binop hb])))
+                    (.normal (σ1.set (.t (atvNext vr c1)) v)) := .assign ((EvalV.pure (by simp [evalValue, hc, hv1, hb])))
                 have s2 : ExecS P (σ1.set (.t (atvNext vr c1)) v) (.assign (.x x) (.move (.t (atvNext vr c1)))) []
                     (.normal ((σ1.set (.t (atvNext vr c1)) v).set (.x x) v)) := .assign ((EvalV.pure (by simp [evalValue])))
                 simpa using ExecC.cons s1 (ExecC.single s2)
@@ -585,7 +619,7 @@ theorem simE_step {fns P n} (hE : SimE fns P n) (hA : SimArgs fns P n) (hB : Sim
                       .assignField (.x x) i (.move (.t (atvNext vr c1)))] []
                     (.normal ((σ1.set (.t (atvNext vr c1)) (.int k)).set (.x x) (.recd (fs.set i k)))) := by
                   have s1 : ExecS P σ1 (.assign (.t (atvNext vr c1)) (.binop (.t c) op (atvVar vr c1))) []
-                      (.normal (σ1.set (.t (atvNext vr c1)) (.int k))) := .assign ((EvalV.pure (by simp [evalValue, hc, hv1, binopEv_of_binop hb])))
+                      (.normal (σ1.set (.t (atvNext vr c1)) (.int k))) := .assign ((EvalV.pure (by simp [evalValue, hc, hv1, hb])))
                   have s2 : ExecS P (σ1.set (.t (atvNext vr c1)) (.int k)) (.assignField (.x x) i (.move (.t (atvNext vr c1)))) []
                       (.normal ((σ1.set (.t (atvNext vr c1)) (.int k)).set (.x x) (.recd (fs.set i k)))) :=
                     .assignField (n := k) (EvalV.pure (by simp [evalValue])) (by rw [hσx]; simp [setPayload, hlt])
